@@ -321,6 +321,29 @@ func c16Run(c *mon.Case, p c16P) {
 				return
 			}
 			w.settle()
+			// retention right after the first tail computation of the run (later the dense old part ages out)
+			retention := func(tag string) {
+				if policy != "window" || !spacedWithinBT(cfg.BTNs) {
+					return
+				}
+				hctx, hc := context.WithTimeout(context.Background(), time.Minute)
+				shNow, herr := w.syn.Head(hctx)
+				hc()
+				nh, nherr := w.st.Head(context.Background())
+				nt, nterr := w.st.Tail(context.Background())
+				if herr != nil || nherr != nil || nterr != nil {
+					return
+				}
+				cut := shNow.Time().Add(-time.Duration(cfg.WindowNs))
+				for h := range before {
+					if chain.At(h).Time().After(cut) && (h < nt.Height() || h > nh.Height()) {
+						c.Violation("young-header-pruned/"+shape, fmt.Sprintf("%s: height %d (time %v) is younger than head time %v minus window %v but is no longer stored (Tail %d)", tag, h, chain.At(h).Time(), shNow.Time(), time.Duration(cfg.WindowNs), nt.Height()), nil)
+						break
+					}
+				}
+				c.Count("retention_checks", 1)
+			}
+			retention("after Start")
 			for g := 0; g < p.Gossip; g++ {
 				time.Sleep(c16Spacing)
 				w.g.setTip(tipNow())
@@ -336,6 +359,7 @@ func c16Run(c *mon.Case, p c16P) {
 					c.Violation("gossip-refused/"+shape, fmt.Sprintf("valid adjacent network head %d refused: %v", tipNow(), err), nil)
 				}
 				w.settle()
+				retention(fmt.Sprintf("after gossip #%d", g+1))
 			}
 			if p.ForgedKnown {
 				if st0, e0 := w.st.Head(context.Background()); e0 == nil && st0.Height() > 3 {
